@@ -80,7 +80,7 @@ def checkReply (authOnly : Bool) (buf rb : List UInt8) (udp : Bool) : List Strin
                       | some t => if names.contains rr.name then names ++ [t] else names
                       | none => names) [qq.name]
                     if m.answers.all (fun rr => chain.contains rr.name) then []
-                    else if m.answers.all (fun rr => rr.rtype == RT_NS && qq.name.isSubdomainOf rr.name) && qq.qtype != RT_NS then
+                    else if m.answers.all (fun rr => rr.rtype == RT_NS && qq.name.isSubdomainOf rr.name) then
                       ["fail:C09:K1-referral-in-answer-section"]
                     else ["fail:C09:answer-owner-not-question-or-chain"]
                   else []
